@@ -636,6 +636,12 @@ pub(crate) struct SubscriptionSender {
 
 impl SubscriptionSender {
 	fn send(&self, msg: Box<RawValue>) -> Result<(), TrySubscriptionSendError> {
+		// Once a message has been dropped the subscription is closed as lagging; delivering later
+		// messages would leave a gap in the stream.
+		if self.lagged.has_lagged() {
+			return Err(TrySubscriptionSendError::TooSlow(msg));
+		}
+
 		match self.inner.try_send(msg) {
 			Ok(_) => Ok(()),
 			Err(TrySendError::Closed(_)) => Err(TrySubscriptionSendError::Closed),
